@@ -6,8 +6,11 @@ PATCH=$(readlink -f "$1"); TIER=$2; shift 2
 cd /verif
 if ! git -C /repo diff --quiet; then echo "refusing: /repo has uncommitted changes"; exit 2; fi
 if ! git -C /repo apply --check "$PATCH" 2>/dev/null; then echo "patch does not apply"; exit 2; fi
+# evidence written while a seeded change is applied must not stay in /verif/evidence
+EVBAK=$(mktemp -d)
+cp -a /verif/evidence/. "$EVBAK"/ 2>/dev/null
 git -C /repo apply "$PATCH"
-trap 'git -C /repo checkout -- . ; git -C /repo clean -fdq -- src' EXIT
+trap 'git -C /repo checkout -- . ; git -C /repo clean -fdq -- src; rm -rf /verif/evidence; mkdir -p /verif/evidence; cp -a "$EVBAK"/. /verif/evidence/; rm -rf "$EVBAK"' EXIT
 for id in "$@"; do
   out=$(./vcheck "$id" "$TIER" 2>&1); rc=$?
   nv=$(echo "$out" | grep -c '^VIOLATION')
